@@ -79,7 +79,14 @@ pub mod net {
         Data(Vec<u8>),
         /// Nothing arrives before the read timeout.
         Timeout,
+        /// TCP only: the peer sends these bytes and then stalls with the
+        /// connection open (the bytes are delivered, then the read times out).
+        Partial(Vec<u8>),
     }
+
+    /// A query that keeps polling a peer that has gone silent is a hang; the
+    /// model turns more than this many consecutive empty receives into a panic.
+    pub const MAX_SILENT_POLLS: usize = 12;
 
     pub struct World {
         pub script: [Option<Event>; MAX_EVENTS],
@@ -97,6 +104,7 @@ pub mod net {
         pub connect_fault: bool,
 
         pub n_recvs: usize,
+        pub silent_polls: usize,
         pub sockets_opened: usize,
 
         /// Timeouts recorded for the most recently created socket.
@@ -125,6 +133,7 @@ pub mod net {
         send_fault: [false; MAX_SENDS],
         connect_fault: false,
         n_recvs: 0,
+        silent_polls: 0,
         sockets_opened: 0,
         read_timeout: None,
         write_timeout: None,
@@ -153,6 +162,7 @@ pub mod net {
             self.n_sends = 0;
             self.connect_fault = false;
             self.n_recvs = 0;
+            self.silent_polls = 0;
             self.sockets_opened = 0;
             self.read_timeout = None;
             self.write_timeout = None;
@@ -168,6 +178,18 @@ pub mod net {
             while i < MAX_EVENTS {
                 if self.script[i].is_none() {
                     self.script[i] = Some(Event::Data(d));
+                    return;
+                }
+                i += 1;
+            }
+            panic!("verif net model: script full");
+        }
+
+        pub fn push_partial(&mut self, d: Vec<u8>) {
+            let mut i = 0;
+            while i < MAX_EVENTS {
+                if self.script[i].is_none() {
+                    self.script[i] = Some(Event::Partial(d));
                     return;
                 }
                 i += 1;
@@ -226,13 +248,23 @@ pub mod net {
                 return None;
             }
             let i = self.next_event;
-            match self.script[i].take() {
+            let e = match self.script[i].take() {
                 None => None,
                 Some(e) => {
                     self.next_event += 1;
                     Some(e)
                 }
+            };
+            match &e {
+                Some(Event::Data(_)) => self.silent_polls = 0,
+                _ => {
+                    self.silent_polls += 1;
+                    if self.silent_polls > MAX_SILENT_POLLS {
+                        panic!("verif net model: the peer was polled again and again after it went silent");
+                    }
+                }
             }
+            e
         }
     }
 
@@ -275,7 +307,7 @@ pub mod net {
 
         pub fn recv_from(&self, buf: &mut [u8]) -> io::Result<(usize, SocketAddr)> {
             match world().next() {
-                None | Some(Event::Timeout) => Err(io::ErrorKind::WouldBlock.into()),
+                None | Some(Event::Timeout) | Some(Event::Partial(_)) => Err(io::ErrorKind::WouldBlock.into()),
                 Some(Event::Data(d)) => {
                     // a datagram longer than the buffer is truncated (recvfrom(2))
                     let n = if d.len() < buf.len() { d.len() } else { buf.len() };
@@ -352,7 +384,7 @@ pub mod net {
                     }
                 }
                 Some(Event::Timeout) => Err(io::ErrorKind::WouldBlock.into()),
-                Some(Event::Data(d)) => {
+                Some(Event::Data(d)) | Some(Event::Partial(d)) => {
                     let n = if d.len() < buf.len() { d.len() } else { buf.len() };
                     buf[.. n].copy_from_slice(&d[.. n]);
                     core::mem::forget(d);
@@ -377,6 +409,12 @@ pub mod net {
                     buf.extend_from_slice(&d);
                     core::mem::forget(d);
                     Ok(n)
+                }
+                Some(Event::Partial(d)) => {
+                    // std: the bytes read so far stay in `buf`, the error is returned
+                    buf.extend_from_slice(&d);
+                    core::mem::forget(d);
+                    Err(io::ErrorKind::WouldBlock.into())
                 }
             }
         }
